@@ -5,7 +5,7 @@ use nom::{
         alpha1, alphanumeric1, char, digit1, hex_digit1, multispace0, multispace1, oct_digit1,
         one_of,
     },
-    combinator::{all_consuming, cut, map, map_opt, map_res, opt, recognize},
+    combinator::{all_consuming, cut, map, map_res, opt, recognize},
     error::{context, convert_error, ContextError, FromExternalError, ParseError, VerboseError},
     multi::{many0, many1, many_m_n, separated_list0},
     sequence::{delimited, pair, preceded, separated_pair, terminated, tuple as nom_tuple},
@@ -320,25 +320,6 @@ rule!(array -> Value, {
     map(delimited(char('['), cut(body),ws(char(']'))), Into::into)
 });
 
-rule!(tuple -> Value, {
-    let body = map_opt(
-        pair(many0(terminated(
-            op_0,
-            ws(char(','))
-        )),opt(op_0)),
-        |(mut ary,last)|{
-            if ary.is_empty() && last.is_some() {
-                return None
-            }
-            if let Some(v) = last {
-                ary.push(v);
-            }
-            Some(ary)
-        }
-    );
-    map(map(delimited(char('('), body,ws(char(')'))), Arc::new), Value::Tuple)
-});
-
 rule!(value -> Value, {
     // println!("value: i={}", i);
     alt((
@@ -348,14 +329,46 @@ rule!(value -> Value, {
         integer,
         identifier,
         array,
-        tuple,
     ))
+});
+
+// `( a )` is a, `()`, `( a , )` and `( a , b )` are tuples: one pass over the elements decides which. Trying
+// the parenthesised form first and the tuple form again on failure parsed the inside of every parenthesis
+// several times, i.e. a syntax error inside n parentheses took 3^n steps to report.
+rule!(op_paren(i) -> Value, {
+    |i| {
+        let (mut i, _) = char('(')(i)?;
+        let mut items = vec![];
+        let mut is_tuple = true;
+        loop {
+            if let Ok((rest, _)) = ws(char::<_, E>(')'))(i) {
+                i = rest;
+                break;
+            }
+            let (rest, item) = op_0(i)?;
+            items.push(item);
+            match ws(char::<_, E>(','))(rest) {
+                Ok((rest, _)) => i = rest,
+                Err(_) => {
+                    let (rest, _) = ws(char(')'))(rest)?;
+                    is_tuple = items.len() > 1;
+                    i = rest;
+                    break;
+                }
+            }
+        }
+        let ret = if is_tuple {
+            Value::Tuple(Arc::new(items))
+        } else {
+            items.remove(0)
+        };
+        Ok((i, ret))
+    }
 });
 
 rule!(op_value -> Value, {
     alt((
-        delimited(char('('), ws(op_0), ws(char(')'))),
-        delimited(char('('), ws(value), ws(char(')'))),
+        op_paren,
         value,
     ))
 });
